@@ -71,6 +71,51 @@ def gen_cases(ctx, n):
     return out
 
 
+def corpus_cases(ctx):
+    """tie (c): real -pm1-/-pm2- members written by PMarc are parsed by an independent parser (vlib/lhparse.py) into the spec's
+    description language; Spec.PmEnc must re-serialise them bit for bit (up to the last, zero-padded byte) and the C decoder's
+    output on the real bytes must equal the spec expansion of the parsed commands"""
+    from vlib import corpus, lhparse
+    lhv = core.lhv_path()
+    bm = corpus.by_method(lhv, maxlen=40000 if ctx.tier == "quick" else None)
+    items = []
+    for m in bm.get("-pm1-", []):
+        try:
+            t, c, p = lhparse.parse_pm1(m["data"], m["length"])
+            items.append(("pm1", m, "%d %s" % (t, c), None))
+        except Exception as e:
+            items.append(("pm1", m, None, "parser failed: %r" % e))
+    for m in bm.get("-pm2-", []):
+        try:
+            f, r, c, p = lhparse.parse_pm2(m["data"], m["length"])
+            items.append(("pm2", m, "%d %s %s" % (f, r, c), None))
+        except Exception as e:
+            items.append(("pm2", m, None, "parser failed: %r" % e))
+    ser, _ = core.run_lines_parallel([lhv], ["%sser %s" % (meth, d) for meth, m, d, err in items if d is not None])
+    ser = iter(ser)
+    out = []
+    for meth, m, d, err in items:
+        tie = err
+        if d is not None:
+            o = next(ser)
+            if not o.startswith("ok"):
+                tie = "the spec rejects a real %s member of %s as not well-formed" % (meth, m["archive"])
+            else:
+                hx = o.split()[1] if len(o.split()) > 1 else "-"
+                sb = bytes.fromhex(hx) if hx != "-" else b""
+                k = min(len(sb), len(m["data"])) - 1
+                if k < 0 or sb[:k] != m["data"][:k] or len(sb) > len(m["data"]) + 1:
+                    tie = "Spec.PmEnc does not reproduce a real %s member of %s bit for bit" % (meth, m["archive"])
+        sj0 = mk_spec_judge(m["length"])
+
+        def sj(c_out, s_out, tie=tie, sj0=sj0):
+            return ("TIE: " + tie) if tie else sj0(c_out, s_out)
+        out.append(Case(S.dec_op(meth, m["length"], 0, -1, [], m["data"]), spec="%sexp %s" % (meth, d or "0 -"), spec_judge=sj,
+                        tags={"corpus", "m=" + meth}, note="copy corpus"))
+    ctx.dist["corpus-members-reserialised"] += len(items)
+    return out
+
+
 def nontrivial(c):
     return bool(c.note)
 
